@@ -1,7 +1,45 @@
 (* Pinned statements of the C19 theorems: this file fails to compile if a statement changes. *)
-From Coq Require Import List Arith.
+From Coq Require Import List Arith Permutation.
 Import ListNotations.
-From NV Require Import Lsp.World Lsp.Spec Lsp.Witness Props.C19.
+From NV Require Import Lsp.World Lsp.Spec Lsp.Inv Lsp.Witness Lsp.Main Props.C19.
+
+Check (C19_no_crash : forall cf pick disk rank fuel h, good pick disk rank fuel h ->
+  exists w, run cf pick disk fuel h = Ok w).
+
+Check (C19_analysis_fresh : forall cf pick disk rank fuel h w, good pick disk rank fuel h ->
+  run cf pick disk fuel h = Ok w ->
+  forall p f a, live_id w p = Some f -> w_an w f = Some a ->
+    final_docs disk h p = Some (a_src a) /\ a_state a <> Typechecking /\
+    (a_state a = Typechecked -> same_diags (a_tdiags a) (expect_t (final_docs disk h) fuel p))).
+
+Check (C19_open_analysed : forall cf pick disk rank fuel h w, good pick disk rank fuel h ->
+  run cf pick disk fuel h = Ok w ->
+  forall p, bufs_after no_bufs h p <> None ->
+    exists f a, live_id w p = Some f /\ w_an w f = Some a /\ a_state a = Typechecked).
+
+Check (C19_answers_history_independent :
+  forall cf pick1 pick2 disk rank fuel h1 h2 w1 w2,
+  good pick1 disk rank fuel h1 -> good pick2 disk rank fuel h2 ->
+  (forall p, bufs_after no_bufs h1 p = bufs_after no_bufs h2 p) ->
+  run cf pick1 disk fuel h1 = Ok w1 -> run cf pick2 disk fuel h2 = Ok w2 ->
+  forall p,
+    (bufs_after no_bufs h1 p <> None -> exists a1 a2, view w1 p = Some a1 /\ view w2 p = Some a2) /\
+    (forall a1 a2, view w1 p = Some a1 -> view w2 p = Some a2 ->
+       a_src a1 = a_src a2 /\
+       (a_state a1 = Typechecked -> a_state a2 = Typechecked -> same_diags (a_tdiags a1) (a_tdiags a2)))).
+
+Check (C19_rev_imports_complete : forall cf pick disk rank fuel h w, good pick disk rank fuel h ->
+  run cf pick disk fuel h = Ok w ->
+  forall f a q, w_an w f = Some a -> a_state a = Typechecked ->
+    In q (fst (reach (final_docs disk h) (c_imports (a_src a)))) ->
+    exists t, live_id w q = Some t /\ w_an w t <> None /\ In f (w_rev w t) /\ In t (w_imports w f)).
+
+Check (C19_failed_imports_complete : forall cf pick disk rank fuel h w, good pick disk rank fuel h ->
+  run cf pick disk fuel h = Ok w ->
+  forall f a q, w_an w f = Some a -> a_state a = Typechecked ->
+    snd (reach (final_docs disk h) (c_imports (a_src a))) = Some q -> In f (w_failed w q)).
+
+Check (C19_good_example : good idpick disk1 rank1 2 hist1).
 
 Check (C19_closed_buffer_refuted :
   exists rank disk h w ds,
